@@ -8,6 +8,7 @@ import Driver.Ctl
 import Driver.Xml
 import Driver.Theme
 import Driver.Expr
+import Driver.Bearing
 open Svgdx Driver
 
 def errLine (e : Err) : String := joinFields [cs!"err", e.name.toList]
@@ -171,7 +172,10 @@ def handle (line : String) : String :=
           | none =>
             match Driver.handleExpr op args with
             | some r => r
-            | none => "bad-op"
+            | none =>
+              match Driver.handleBearing op args with
+              | some r => r
+              | none => "bad-op"
   | [] => "bad-op"
 
 partial def loop (h : IO.FS.Stream) (out : IO.FS.Stream) : IO Unit := do
